@@ -294,6 +294,33 @@ _upd('C03', None, None,
      'LALR construction itself is not verified (the tables are the object of study).')
 
 
+_upd('C04', None,
+     'asi_grammar_facts and asi_twins_same_tree are decided over the regenerated grammar and action table; auto_semi_decision / '
+     'auto_semi_effect / pushed_back_token_is_next hold for all lexer states; autosemi_justified (composed model, every text): every '
+     'inserted semicolon a reachable configuration holds was made for exactly one of three reasons stated against the text - an '
+     'offending token that some state rejects and that is `}` or directly preceded by a LineTerminatorSequence, end of input, or the '
+     'restricted production after return/break/continue/throw - so insertion happens ONLY where 7.9 allows. That it happens EVERYWHERE '
+     '7.9 says is false of the code (recorded findings KF-04a/c/d/f, KF-05f) and is judged: semicolon-subset invariance against the '
+     'reference parser under all terminator kinds, blank lines and whole-line comments.',
+     None)
+_upd('C05', None,
+     'slash_classes_exclusive / slash_reading_is_dictated (kernel decision over the regenerated tables): no parser state accepts both '
+     'a division token and a regular-expression literal except the two states after the `}` of a named function (finding KF-03a), so '
+     'wherever the parser acts on the `/` token the lexer delivered, the other lexical class would have been a syntax error there; '
+     'simple_tokens_never_regex, punctuators_never_div, rparen_states_exclusive; lexer side div_allowed_iff, div_decision. Not proved: '
+     'that the lexer\'s parenthesis stack and the LR stack agree on which `)` closes a statement header - judged by the class of every '
+     '`/` by source offset against the reference parser in preceding-construct x following-text x layout contexts, also nested inside '
+     'open parentheses and after property names spelled like reserved words.',
+     None)
+_upd('C08', None,
+     'actions_anchor_ok + node_positions_ok (parser side), fragment_position_from_tokmap / fragment_source_is_stack_top / '
+     'fragments_of_all_rule_sets (unparser side), and the capstone printed_positions_point_at_source_tokens: for every accepted text, '
+     'every rule set (obfuscating ones included), every indent and every fragment with an explicit position, that position is the ES5 '
+     'line/column of a shifted token whose spelling is the fragment\'s text or original name and the source text at the token\'s offset '
+     'IS that spelling (or an inserted `;`, or a recorded comment); sourcemap_segments_point_at_source_tokens pushes it through the '
+     'V3 decoder. Tie S3; judge on 14 printer configurations incl. chained multi-file streams.',
+     None)
+
 
 def main():
     checks = []
